@@ -128,6 +128,22 @@ def dump_yaml(docs, flow=None, sep="---\n"):
     return sep.join(parts)
 
 
+def share_equal(v, memo=None):
+    """the same tree with EQUAL non-empty containers made one Python object: the YAML writer then emits the first occurrence with an
+    anchor (`&id001`) and the others as aliases (`*id001`).  Read back, an alias denotes a copy of the anchored value."""
+    memo = {} if memo is None else memo
+    if isinstance(v, dict):
+        v = {k: share_equal(x, memo) for k, x in v.items()}
+    elif isinstance(v, list):
+        v = [share_equal(x, memo) for x in v]
+    else:
+        return v
+    if not v:
+        return v
+    key = json.dumps(v, sort_keys=True, default=str)
+    return memo.setdefault(key, v)
+
+
 def _toml_str(s):
     out = '"'
     for c in s:
